@@ -1,6 +1,7 @@
 (* C10 — stepping commands execute exactly what they promise. *)
 From Coq Require Import List NArith Bool.
 From Lace Require Import Word Machine Isa Vm Asm Dbg DbgProofs DbgRef DbgScript.
+From Lace Require DbgSig.
 From Lace Require Examples.
 Import ListNotations.
 Open Scope N_scope.
@@ -269,3 +270,24 @@ Example C10_script_breakpoints_nonvacuous :
   | _, _ => False
   end.
 Proof. split; [exact ex_steps2_stepping|exact ex_steps2_ref]. Qed.
+
+(** What the stepping commands take for a call, a return and a HALT is what the ISA says these words are: the
+    debugger's own decoder (`SignificantInstr::try_from`, masks on the raw word) agrees with [Isa.decode] on ALL 65,536
+    words - JSR / JSRR / CALL are calls, JMP R7 and RETS are returns, TRAP x25 is HALT whatever the unused bits hold,
+    and nothing else is any of these. *)
+Theorem C10_classification : forall w, w < 65536 ->
+  significant w = DbgSig.sig_of_instr (decode w).
+Proof. exact DbgSig.significant_decode. Qed.
+Print Assumptions C10_classification.
+
+Theorem C10_halt_words : forall w, w < 65536 ->
+  (is_sig (significant w) SigHalt = true <-> decode w = TRAP 37).
+Proof. exact DbgSig.halt_words. Qed.
+Print Assumptions C10_halt_words.
+
+Example C10_classification_nonvacuous :
+  significant 49600 = Some SigReturn /\ significant 55296 = Some SigReturn /\
+  significant 61477 = Some SigHalt /\ significant 61733 = Some SigHalt /\ significant 65317 = Some SigHalt /\
+  significant 18432 = Some SigCall /\ significant 16576 = Some SigCall /\ significant 56320 = Some SigCall /\
+  significant 49536 = None /\ significant 61478 = None /\ significant 4096 = None.
+Proof. exact DbgSig.sig_examples. Qed.
